@@ -11,8 +11,8 @@
     refinement carry a float-free hypothesis, floats are compared numerically by the correspondence only (finding F142
     lives exactly there). *)
 From Coq Require Import String Ascii NArith ZArith Bool List.
-From TV Require Import Common.Sched Fmt.JsonModel Fmt.JsonProofsRender Fmt.JsonProofsParse Fmt.JsonProofsMap Fmt.JsonProofsRecord
-  Fmt.JsonConc Fmt.JsonConcProofs.
+From TV Require Import Common.Sched Fmt.JsonModel Fmt.JsonProofsRender Fmt.JsonProofsParse Fmt.JsonProofsMap Fmt.JsonProofsRecord.
+From TV Require Import Fmt.JsonConc Fmt.JsonConcProofs.
 From TVGen Require Import Gen_json.
 Import ListNotations.
 Local Open Scope N_scope.
